@@ -9,7 +9,8 @@ Extracted (nothing is imported or executed):
     function and whether that function is decorated with `@lock_neuron`; all `@lock_neuron` functions
   * what `TreeNeuron.__getstate__` pops, the `no_copy` list of `TreeNeuron.copy` and whether `copy` is
     `if not self.is_stale: … else: x._clear_temp_attr()`
-  * the shape of `BaseNeuron.is_stale`, `BaseNeuron._clear_temp_attr` and the `temp_property` wrapper.
+  * the shape of `BaseNeuron.is_stale`, `BaseNeuron._clear_temp_attr` (incl. any rewrite of `exclude`), the
+    `temp_property` wrapper and `utils.lock_neuron` (lock released in a `finally:`).
 """
 import ast
 from pathlib import Path
@@ -194,6 +195,40 @@ def shape_clear(fn):
     return guards, restamps_md5 and restamps_flag, deletes
 
 
+def shape_excl_rewrite(fn):
+    """Does `_clear_temp_attr` rewrite `exclude` before the delete loop?  Recognised: nothing (False) or exactly
+    `exclude = list(exclude) + [f"_{e}" for e in exclude]` (True).  Anything else is an unknown matching rule."""
+    prefix = False
+    for n in ast.walk(fn):
+        tgt = None
+        if isinstance(n, ast.Assign):
+            tgt = [t for t in n.targets if isinstance(t, ast.Name) and t.id == 'exclude']
+        elif isinstance(n, ast.AugAssign) and isinstance(n.target, ast.Name) and n.target.id == 'exclude':
+            tgt = [n.target]
+        if tgt:
+            src = _src(n).replace(' ', '').replace('"', "'")
+            if src == "exclude=list(exclude)+[f'_{e}'foreinexclude]":
+                prefix = True
+            else:
+                raise ValueError(f'_clear_temp_attr rewrites `exclude` in an unknown way: {_src(n)}')
+    return prefix
+
+
+def shape_lock(fn):
+    """lock_neuron: the decrement of `_lock` must sit in the `finally:` of the `try:` that runs the wrapped call."""
+    inner = [n for n in fn.body if isinstance(n, ast.FunctionDef)]
+    if not inner:
+        return False
+    for n in ast.walk(inner[0]):
+        if isinstance(n, ast.Try) and n.finalbody:
+            runs = any(isinstance(m, ast.Call) and _src(m.func) == 'function' for b in n.body for m in ast.walk(b))
+            dec = any(isinstance(m, ast.AugAssign) and isinstance(m.op, ast.Sub) and _src(m.target) == 'args[0]._lock'
+                      for b in n.finalbody for m in ast.walk(b))
+            if runs and dec:
+                return True
+    return False
+
+
 def shape_wrapper(fn):
     """temp_property: inner wrapper is `if not self.is_locked: if self.is_stale: self._clear_temp_attr()` followed by
     `return func(*args, **kwargs)`."""
@@ -273,12 +308,16 @@ def extract(repo: Path):
         raise ValueError('TreeNeuron._clear_temp_attr: unexpected shape')
     tp = [n for n in cu.body if isinstance(n, ast.FunctionDef) and n.name == 'temp_property']
     wrapper = shape_wrapper(tp[0]) if tp else False
+    excl_prefix = shape_excl_rewrite(_method(BN, '_clear_temp_attr'))
+    deco = ast.parse((repo / 'navis/utils/decorators.py').read_text())
+    ln = [n for n in deco.body if isinstance(n, ast.FunctionDef) and n.name == 'lock_neuron']
+    lock_finally = shape_lock(ln[0]) if ln else False
     no_copy, copy_clears = shape_copy(_method(TN, 'copy'))
     drops = shape_getstate(_method(TN, '__getstate__'))
     return dict(tempAttr=temp_attr, coreTable=table, coreCols=cols, views=views, clearSites=sites,
                 lockedFns=locked_fns, getstateDrops=drops, copyNoCopy=no_copy, copyClearsIfStale=copy_clears,
                 isStaleRecomputes=recomputes, isStaleSticky=sticky, clearGuardsLock=guards, clearRestamps=restamps,
-                clearDeletes=deletes, wrapperChecks=wrapper)
+                clearDeletes=deletes, wrapperChecks=wrapper, exclPrefix=excl_prefix, lockFinally=lock_finally)
 
 
 def generate(repo: Path):
@@ -310,7 +349,7 @@ def generate(repo: Path):
     L.append(f'  getstateDrops := {lstr(d["getstateDrops"])}')
     L.append(f'  copyNoCopy := {lstr(d["copyNoCopy"])}')
     for k in ('copyClearsIfStale', 'isStaleRecomputes', 'isStaleSticky', 'clearGuardsLock', 'clearRestamps',
-              'clearDeletes', 'wrapperChecks'):
+              'clearDeletes', 'wrapperChecks', 'exclPrefix', 'lockFinally'):
         L.append(f'  {k} := {lb(d[k])}')
     L.append('')
     L.append('end Navis.Gen.CacheSpec')
@@ -322,7 +361,7 @@ def generate(repo: Path):
             'exclude_literals': sorted({tuple(s['excl']) for s in d['clearSites']}),
             'locked_fns': d['lockedFns'], 'getstate_drops': d['getstateDrops'], 'copy_no_copy': d['copyNoCopy'],
             'flags': {k: d[k] for k in ('copyClearsIfStale', 'isStaleRecomputes', 'isStaleSticky', 'clearGuardsLock',
-                                        'clearRestamps', 'clearDeletes', 'wrapperChecks')}}
+                                        'clearRestamps', 'clearDeletes', 'wrapperChecks', 'exclPrefix', 'lockFinally')}}
     return 'CacheSpec.lean', '\n'.join(L), meta
 
 
